@@ -19,8 +19,13 @@ open LemoGen.TxWindow
 /-- a transaction without its box structure (a standalone tx or a box sub-tx) -/
 structure Core where
   txId : Nat
+  /-- what the SENDER signed: `MakeSigner().Hash(tx)`; for a reimbursement tx
+      `MakeReimbursementTxSigner().Hash(tx)`, which omits GasPrice and GasLimit -/
   content : Nat
   exp : Nat
+  /-- what the gas PAYER signed (`MakeGasPayerSigner().Hash(tx)`, covers the gas terms);
+      0 = not a reimbursement tx.  A reimbursed tx has TWO signed contents. -/
+  payer : Nat := 0
   deriving DecidableEq, Repr, Inhabited
 
 structure Tx where
@@ -29,9 +34,10 @@ structure Tx where
   exp : Nat
   /-- sub-transactions when this is a box tx (`getSubTxs`) -/
   subs : List Core := []
+  payer : Nat := 0
   deriving DecidableEq, Repr, Inhabited
 
-def Tx.core (t : Tx) : Core := ⟨t.txId, t.content, t.exp⟩
+def Tx.core (t : Tx) : Core := ⟨t.txId, t.content, t.exp, t.payer⟩
 /-- the tx itself and its box sub-txs: everything that is executed when the tx is executed -/
 def Tx.cores (t : Tx) : List Core := t.core :: t.subs
 /-- the hashes `TxTracer` records / looks up for one tx: its own and its sub-txs' -/
@@ -301,13 +307,80 @@ def verifyTxs (fixed : Bool) (g : Guard) (b : Block) : Out Bool :=
   | .panic => .panic
   | .hang => .hang
 
-/-- how often a signed content takes effect on a list of executed blocks -/
+/-- how often a content signed by a SENDER takes effect on a list of executed blocks -/
 def execCount (branch : List Block) (content : Nat) : Nat :=
   ((branch.flatMap Block.cores).filter (fun c => c.content == content)).length
 
+/-- how often a content signed by a gas PAYER takes effect -/
+def execCountPayer (branch : List Block) (payer : Nat) : Nat :=
+  ((branch.flatMap Block.cores).filter (fun c => c.payer == payer)).length
+
+/-! ### what authorisation covers (types/tx_signing.go, transaction/tx_processor.go) versus what the
+    tx hash covers (types/tx.go Hash): the replay key is the tx hash -/
+
+/-- a signature as the processor sees it: who it recovers to, and which of the two equivalent
+    encodings `(r, s, v)` / `(r, n−s, v⊕1)` it uses -/
+structure SigEnc where
+  signer : Nat
+  highS : Bool := false
+  deriving DecidableEq, Repr
+
+/-- `recoverSigners`.  `lowSOnly = true`: since fix 04be1c5 a high-s signature fails the whole list;
+    `false`: the code before it (both encodings recover to the same signer). -/
+def recoverSigners (lowSOnly : Bool) (sigs : List SigEnc) : Option (List Nat) :=
+  if lowSOnly && sigs.any (·.highS) then none else some (sigs.map (·.signer))
+
+/-- `checkSignersWeight(sender, tx, signer)`: `accSigners` = the account's registered (address, weight)
+    list.  Plain account: only `signers[0]` is compared with the sender.  Multisig account: the weights
+    of the DISTINCT recovered signers that are registered are summed (order, repetitions and foreign
+    entries do not matter) and compared with 100. -/
+def checkSignersWeight (lowSOnly : Bool) (sender : Nat) (accSigners : List (Nat × Nat)) (sigs : List SigEnc) : Bool :=
+  match recoverSigners lowSOnly sigs with
+  | none => false
+  | some signers =>
+    if signers.isEmpty then false
+    else if accSigners.isEmpty then signers.head? == some sender
+    else
+      let w := fun a => match accSigners.find? (fun e => e.1 == a) with | some e => e.2 | none => 0
+      decide (100 ≤ (signers.eraseDups.map w).sum)
+
+/-- everything `Transaction.Hash()` covers, split by who vouches for it: `body` (from, to, gas payer,
+    amount, data, expiration, …) is in every signing hash; the gas terms are in the sender's signing
+    hash only for an ordinary tx; as soon as the tx carries gas-payer signatures the sender's hash is
+    `ReimbursementTxSigner.Hash`, which omits them — only the payer signs them; the signature lists
+    are covered by nobody's signature.  Two encodings are the same transaction (same tx hash, by
+    collision freedom) iff they are equal as values. -/
+structure Encoded where
+  body : Nat
+  gasPrice : Nat
+  gasLimit : Nat
+  sigs : List SigEnc
+  payerSigs : List SigEnc := []
+  deriving DecidableEq, Repr
+
+/-- `verifyTransactionSigs` picks the sender's signer by `len(GasPayerSigs) >= 1` -/
+def Encoded.reimbursed (e : Encoded) : Bool := !e.payerSigs.isEmpty
+
+/-- the sender's signing hash (`DefaultSigner.Hash` / `ReimbursementTxSigner.Hash`) -/
+def Encoded.senderContent (e : Encoded) : Nat × Option (Nat × Nat) :=
+  (e.body, if e.reimbursed then none else some (e.gasPrice, e.gasLimit))
+
+/-- the payer's signing hash (`GasPayerSigner.Hash`) -/
+def Encoded.payerContent (e : Encoded) : Nat × Nat × Nat := (e.body, e.gasPrice, e.gasLimit)
+
+/-- `verifyTransactionSigs`: the payer's list (when present) against the payer account, the sender's
+    list against the sender account (without payer signatures the gas payer must be the sender:
+    part of `body`) -/
+def Encoded.authorised (lowSOnly : Bool) (e : Encoded) (sender : Nat) (senderSigners : List (Nat × Nat))
+    (payer : Nat) (payerSigners : List (Nat × Nat)) : Bool :=
+  (e.payerSigs.isEmpty || checkSignersWeight lowSOnly payer payerSigners e.payerSigs) &&
+  checkSignersWeight lowSOnly sender senderSigners e.sigs
+
 /-! ### the miner (dpovp.go MineBlock / tx_pool.go GetTxs): the guard is NOT consulted -/
 
-/-- `TxPool.GetTxs(time)`: everything not timed out (`isTxTimeOut`) -/
+/-- `TxPool.GetTxs(time)`: everything not timed out (`isTxTimeOut`).  NOTE: a tx whose expiration is
+    more than MaxTxLifeTime AFTER `time` is not filtered here (only the pool's entry paths check that,
+    against the wall clock at entry). -/
 def minerPick (pool : List Tx) (time : Nat) : List Tx :=
   pool.filter (fun tx => !(decide (tx.exp < time) || tx.subs.any (fun s => decide (s.exp < time))))
 
